@@ -571,11 +571,11 @@ def c07(res, tier, seed, replay):
                             "shared caches not scrapped when the batch does not commit")
     runs = []
     if tier == "quick":
-        plan = [("kitchen", "-1", "unl", 2, 6, 8, 2), ("kitchen", "3000", "tiny", 1, 6, 6, 1), ("scalars", "-1", "unl", 1, 6, 6, 1),
+        plan = [("kitchen", "-1", "unl", 2, 6, 8, 2), ("kitchen", "3000", "tiny", 1, 6, 6, 1), ("scalars-ne", "-1", "unl", 1, 6, 6, 1),
                 ("vamana-euclidean", "-1", "unl", 1, 6, 8, 1), ("text", "0", "off", 1, 5, 6, 1)]
     else:
         plan = [("kitchen", "-1", "unl", 6, 10, 0, 6), ("kitchen", "3000", "tiny", 4, 10, 0, 4), ("kitchen", "0", "off", 3, 10, 0, 3),
-                ("scalars", "-1", "unl", 4, 10, 0, 4), ("vamana-euclidean", "-1", "unl", 4, 10, 0, 4), ("vamana-hamming", "3000", "tiny", 3, 8, 0, 3),
+                ("scalars-ne", "-1", "unl", 4, 10, 0, 4), ("vamana-euclidean", "-1", "unl", 4, 10, 0, 4), ("vamana-hamming", "3000", "tiny", 3, 8, 0, 3),
                 ("flat-jaccard", "-1", "unl", 3, 8, 0, 3), ("text", "-1", "unl", 4, 10, 0, 4)]
     for i, (cfgname, cache, ctag, hist, batches, maxf, kills) in enumerate(plan):
         runs.append({"name": f"fault-{cfgname}-{ctag}", "timeout": 2400, "tlc_timeout": 2400,
